@@ -412,6 +412,32 @@ class SB:
         return f"SB({self.e})"
 
 
+def _numeral(e):
+    return z3.is_int_value(e) or z3.is_rational_value(e)
+
+
+def _fold_ite(f, a, b):
+    """f(a, b) with a numeral pushed into the branches of an If whose branches are numerals (keeps flag arithmetic linear)"""
+    a, b = z3.simplify(a), z3.simplify(b)
+    for k, (p, q) in enumerate(((a, b), (b, a))):
+        if z3.is_app(p) and p.decl().kind() == z3.Z3_OP_ITE and _numeral(q):
+            c, x, y = p.children()
+            if _numeral(x) and _numeral(y):
+                return z3.If(c, f(x, q) if k == 0 else f(q, x), f(y, q) if k == 0 else f(q, y))
+    return f(a, b)
+
+
+def _lmul(a, b):
+    """product that stays linear when one factor is an If with numeral branches (indicator of a flag)"""
+    for p, q in ((a, b), (b, a)):
+        p = z3.simplify(p)
+        if z3.is_app(p) and p.decl().kind() == z3.Z3_OP_ITE:
+            c, x, y = p.children()
+            if (z3.is_int_value(x) or z3.is_rational_value(x)) and (z3.is_int_value(y) or z3.is_rational_value(y)):
+                return z3.If(c, x * q, y * q)
+    return a * b
+
+
 class SV:
     """symbolic integer or real (no IEEE specials; see ev.EV for floats)"""
     __slots__ = ('e',)
@@ -430,15 +456,15 @@ class SV:
             a, b = _arith(self.e, lift(o))
             if r:
                 a, b = b, a
-            return SV(z3.simplify(f(a, b)))
+            return SV(z3.simplify(_fold_ite(f, a, b)))
         return NotImplemented
 
     def __add__(s, o): return s._bin(o, lambda a, b: a + b)
     def __radd__(s, o): return s._bin(o, lambda a, b: a + b, True)
     def __sub__(s, o): return s._bin(o, lambda a, b: a - b)
     def __rsub__(s, o): return s._bin(o, lambda a, b: a - b, True)
-    def __mul__(s, o): return s._bin(o, lambda a, b: a * b)
-    def __rmul__(s, o): return s._bin(o, lambda a, b: a * b, True)
+    def __mul__(s, o): return s._bin(o, _lmul)
+    def __rmul__(s, o): return s._bin(o, _lmul, True)
 
     def __truediv__(s, o):
         if isinstance(o, (SV, SB, int, float, bool, Fraction)):
